@@ -422,8 +422,12 @@ class HttpCommunicationLayer(CommunicationLayer):
                     "sender-comp": msg.src_comp,
                     "dest-comp": msg.dest_comp,
                     "type": str(msg.msg_type),
+                    "Content-Type": "application/json",
                 },
-                json=msg_repr,
+                # Not `json=msg_repr`: requests encodes with allow_nan=False
+                # and rejects the infinite costs of hard constraints; the
+                # receiving side (json.loads) accepts Infinity.
+                data=json.dumps(msg_repr),
                 timeout=0.5,
             )
         except ConnectionError:
